@@ -38,8 +38,9 @@ func VerifBitsetLemma() {
 // Invariant I(s): s.b is a live noscan block of s.n bytes, 0 <= s.p <= s.n, and every
 // allocation handed out from this block lies in [s.b, s.b+s.p).
 // Step: for arbitrary n >= 0 and align in {1,2,4,8}, Malloc returns ret with
-//   ret aligned; [ret, ret+n) inside the block now current; ret >= old frontier if the block was kept
-//   (hence disjoint from everything handed out before); I re-established.
+//
+//	ret aligned; [ret, ret+n) inside the block now current; ret >= old frontier if the block was kept
+//	(hence disjoint from everything handed out before); I re-established.
 func VerifSpanLemma() {
 	var s span
 	s.init()
